@@ -6,8 +6,8 @@ EXTENDS MC_TpePols, Json
 
 VARIABLES coord, c
 
-Bases == << <<TRUE, "u2", TRUE, TRUE, TRUE, TRUE, "u1", 3, "u1">>, <<FALSE, "none", FALSE, FALSE, FALSE, FALSE, "u2", 2, "u1">>,
-            <<TRUE, "u3", FALSE, TRUE, FALSE, FALSE, "u1", 5, "u1">>, <<FALSE, "u2", TRUE, FALSE, TRUE, TRUE, "u2", 1, "u2">> >>
+Bases == << <<TRUE, "u2", TRUE, TRUE, "g", TRUE, "u1", 3, "u1">>, <<FALSE, "none", FALSE, FALSE, "no", FALSE, "u2", 2, "u1">>,
+            <<TRUE, "u3", FALSE, TRUE, "no", FALSE, "u1", 5, "u1">>, <<FALSE, "u2", TRUE, FALSE, "g", TRUE, "u2", 1, "u2">> >>
 Comps == {"pid", "ctx", "u1attrs", "u1anc", "u1tags", "u2gone", "dattrs", "u1gone"}
 FreeOf(comp) == CASE comp = "pid" -> {9} [] comp = "ctx" -> {8} [] comp = "u1attrs" -> {1, 2, 3} [] comp = "u1anc" -> {5}
                   [] comp = "u1tags" -> {4} [] comp = "u2gone" -> {6} [] comp = "dattrs" -> {7} [] comp = "u1gone" -> {1, 2, 3, 4, 5}
